@@ -5,19 +5,19 @@ VERIF = os.path.dirname(os.path.dirname(os.path.abspath(__file__)))
 
 CHECKS = {
  "C01": dict(
-  technique="property-based testing: Hypothesis point/resolution generators aimed at poles, frame points, antimeridian, cell corners/edges; independent spherical point-in-ring oracle with adaptive segment refinement",
+  technique="coverage-directed boundary anchors (lib/boundary.py), exact res-0 face sweep along all dodecahedron edges, 90 near-edge points per generated cell; property-based testing: Hypothesis point/resolution generators aimed at poles, frame points, antimeridian, cell corners/edges; independent spherical point-in-ring oracle with adaptive segment refinement",
   text="Generated (point, resolution) pairs (about half adversarial: poles, the 62 dodecahedron frame points at 1e-12..1e-1 rad, antimeridian, wrapped longitudes, corner/edge huggers) are sent through lonlat_to_cell and judged by a point-in-polygon test written independently of the library on the cell's own boundary ring. Sampled, not exhaustive; tolerance 4.3e-5 cell widths.",
   note="Trusts cell_to_boundary at 64 segments per edge as the cell's boundary (its own consistency is C03/C04/C12) and the harness's closed-form authalic latitude.", ref="DESIGN.md §6 C01"),
  "C02": dict(
-  technique="property-based testing: complete enumeration of all cells res<=5/7 plus Hypothesis structured ids and located cells; round-trip cell->centre->cell with an independent containment oracle",
+  technique="coverage-directed boundary anchors; property-based testing: complete enumeration of all cells res<=5/7 plus Hypothesis structured ids and located cells; round-trip cell->centre->cell with an independent containment oracle",
   text="Every cell of res 0..5 (quick) / 0..7 (thorough, 327,672 cells) plus generated cells up to res 29 (structured S, poles, frame points, antimeridian): centre in range, strictly inside own ring, maps back to the same id. Exhaustive on the enumerated levels only.",
   note="Ring at 8/64 segments per edge stands for the true boundary.", ref="DESIGN.md §6 C02"),
  "C03": dict(
-  technique="property-based testing: complete per-level manifold certificate (directed-edge matching, Euler characteristic, area sum) for res<=5/7 plus Hypothesis-sampled edge-neighbour checks to res 29",
+  technique="along-edge beyond-edge probes, coverage-directed boundary anchors; property-based testing: complete per-level manifold certificate (directed-edge matching, Euler characteristic, area sum) for res<=5/7 plus Hypothesis-sampled edge-neighbour checks to res 29",
   text="For each level up to 5 (quick) / 7 (thorough) all rings are collected and certified as a closed 2-manifold partition (each directed edge once, its reverse once, V-E+F=2, areas sum to 4pi). Beyond that, generated cells (poles, face edges/vertices, antimeridian, structured ids) have all five edges checked against the lonlat_to_cell-discovered neighbour, vertex for vertex at 4 segments.",
   note="Partition is certified only for res<=7; sampled beyond. Vertex coincidence within 1e-6 cell widths, edge points within 1e-4 + float floor.", ref="DESIGN.md §6 C03"),
  "C04": dict(
-  technique="property-based testing: enumeration of all cells res<=3/5 plus Hypothesis cells to res 29; independent spherical area (two formulas) with Richardson extrapolation over the segment count and closed-form authalic latitude",
+  technique="cells straddling coverage-discovered branch boundaries of the projection code; property-based testing: enumeration of all cells res<=3/5 plus Hypothesis cells to res 29; independent spherical area (two formulas) with Richardson extrapolation over the segment count and closed-form authalic latitude",
   text="Each cell's area is measured from its boundary ring at 32/64 (then 64/128) segments with an area formula independent of the library and compared with 4pi/N(r) to 1e-6 (+ float floor of the returned degrees). A violation needs two agreeing estimates; otherwise the case is counted inconclusive.",
   note="Assumes the discretisation error of the ring is O(1/k^2) (Richardson); geodetic->authalic by the closed WGS84 form.", ref="DESIGN.md §6 C04"),
  "C05": dict(
@@ -33,43 +33,43 @@ CHECKS = {
   text="Generated descent paths (12 levels, incl. extreme first/last/alternating paths) and (point, r, r') triples are judged against the property's constants 1.5 and 2.5 with an independent distance on the authalic sphere; exact nesting of faces and segments is enumerated. Measured worst drift 1.21 / 1.33.",
   note="Sampled paths; constants are the property's.", ref="DESIGN.md §6 C07"),
  "C08": dict(
-  technique="property-based testing: complete enumeration of all antichains of a bounded sub-hierarchy (108k/7.2M) + Hypothesis antichains with overlaps, permutations, duplicates + atheris; interval-union coverage model and literal uncompact comparison",
+  technique="long contiguous runs and block refinements (position/size-aware lists); property-based testing: complete enumeration of all antichains of a bounded sub-hierarchy (108k/7.2M) + Hypothesis antichains with overlaps, permutations, duplicates + atheris; interval-union coverage model and literal uncompact comparison",
   text="compact's output must cover exactly the same res-29 leaf intervals as its input. All antichains of a sub-hierarchy spanning every aperture are enumerated; random multisets add deep grafts, ancestor/descendant overlaps, duplicates and arbitrary order.",
   note="Coverage model from the reference id layout; for small cases also checked literally through uncompact.", ref="DESIGN.md §6 C08"),
  "C09": dict(
-  technique="property-based testing: same enumeration and generators as C08 restricted to antichains; differential against a set-based reference compaction, metamorphic permutation/duplication, idempotence",
+  technique="long contiguous runs, block refinements with merge sites at head/tail/far apart, sorted-input orderings; property-based testing: same enumeration and generators as C08 restricted to antichains; differential against a set-based reference compaction, metamorphic permutation/duplication, idempotence",
   text="compact(X) must equal, as a set and without duplicates, the bottom-up set-based reference compaction; the result must not depend on order or duplication, and compacting again changes nothing.",
   note="Reference compaction is 20 lines over the reference id model.", ref="DESIGN.md §6 C09"),
  "C10": dict(
-  technique="property-based testing: Hypothesis lists of cells with repeats and mixed resolutions (+ atheris), block-wise differential against the reference descendants, error-class generation",
+  technique="contiguous descendant slices; property-based testing: Hypothesis lists of cells with repeats and mixed resolutions (+ atheris), block-wise differential against the reference descendants, error-class generation",
   text="uncompact output is compared block by block (input order, multiplicity) with the reference descendants; length, resolution, parent mapping and argument immutability are asserted; inputs containing a finer cell at any position must raise.",
   note="Expansion bounded to 4^7 per case.", ref="DESIGN.md §6 C10"),
  "C11": dict(
-  technique="property-based testing: Hypothesis points (as C01) and cells (enumerated res 2..4/6, generated to res 29); independent great-circle distance oracle against the property's bounds",
+  technique="coverage-directed boundary anchors; property-based testing: Hypothesis points (as C01) and cells (enumerated res 2..4/6, generated to res 29); independent great-circle distance oracle against the property's bounds",
   text="Point-to-cell-centre distance <= 1.0 cell widths for generated points incl. poles/frame points/res 22-29; corner distances and separations for all cells of the enumerated levels and generated cells elsewhere.",
   note="Distances on the authalic sphere from coordinate differences.", ref="DESIGN.md §6 C11"),
  "C12": dict(
-  technique="property-based testing: enumeration of all cells res<=4/6 x 26 option sets plus Hypothesis cells at the antimeridian/poles to res 29; planar simplicity/orientation oracle in a gnomonic plane, corner-invariance metamorphic relation over segments",
+  technique="wide explicit segments values, coverage-directed boundary anchors; property-based testing: enumeration of all cells res<=4/6 x 26 option sets plus Hypothesis cells at the antimeridian/poles to res 29; planar simplicity/orientation oracle in a gnomonic plane, corner-invariance metamorphic relation over segments",
   text="Every option combination (closed_ring x segments incl. defaults, None, 'auto') is called for each cell; vertex count, closure, latitude range, simplicity, orientation, corner invariance, option immutability and the longitude-continuity clauses are asserted.",
   note="Simplicity judged in the gnomonic plane about the cell centre.", ref="DESIGN.md §6 C12"),
  "C13": dict(
-  technique="property-based testing: Hypothesis unit vectors and face-plane points concentrated at seams, edges, vertices and centres down to 1e-12 rad; round-trip oracle through the nearest and the adjacent face",
+  technique="coverage-directed boundary anchors, recycled argument buffers; property-based testing: Hypothesis unit vectors and face-plane points concentrated at seams, edges, vertices and centres down to 1e-12 rad; round-trip oracle through the nearest and the adjacent face",
   text="sphere->plane->sphere through the nearest face and through the face across the nearest edge, and plane->sphere->plane inside pentagon U mirror triangle, must return within 1e-11. Measured 3e-14.",
   note="Inputs handed to the library as (theta, phi) computed with atan2; sampled.", ref="DESIGN.md §6 C13"),
  "C14": dict(
-  technique="property-based testing: Hypothesis polygons in the face plane (classes across seams/face edge/mirror triangle/centre, sizes 1e-4..0.5); independent spherical area of the unprojected, seam-split, densified boundary with Richardson extrapolation",
+  technique="polygons with a vertex on coverage-discovered branch boundaries; property-based testing: Hypothesis polygons in the face plane (classes across seams/face edge/mirror triangle/centre, sizes 1e-4..0.5); independent spherical area of the unprojected, seam-split, densified boundary with Richardson extrapolation",
   text="Planar area times one global constant must equal the spherical area of the image to 1e-6 for generated triangles, quadrilaterals and pentagons on all 12 faces; a violation needs two agreeing estimates.",
   note="Polygon edges are split at the published seam rays and edge line before densifying (the map is only piecewise smooth).", ref="DESIGN.md §6 C14"),
  "C15": dict(
-  technique="property-based testing: dense grid sweep (2e5/2e6 latitudes) + log-spaced approaches + Hypothesis floats; closed-form WGS84 oracle audited against 50-digit mpmath",
+  technique="forward/inverse call sequences on long-lived converters vs fresh ones; property-based testing: dense grid sweep (2e5/2e6 latitudes) + log-spaced approaches + Hypothesis floats; closed-form WGS84 oracle audited against 50-digit mpmath",
   text="forward vs closed form (1e-10), oddness, strict monotonicity on consecutive grid points, fixed points, round trip (1e-12), and the degree path through from_lonlat/to_lonlat. Measured 2e-16.",
   note="Closed form evaluated without cancellation near the poles; audited with mpmath on a sub-grid each run.", ref="DESIGN.md §6 C15"),
  "C16": dict(
-  technique="property-based testing over schedules: harness-owned preemption injector (sys.settrace) driven by Hypothesis-generated (call A, call B, preemption point k), systematic sweep of every k for sampled pairs, cold-cache runs in forked pristine processes, real-thread supplement",
+  technique="schedules aimed at shared mutable slots found by snapshot diffing (lib/sharedstate.py); property-based testing over schedules: harness-owned preemption injector (sys.settrace) driven by Hypothesis-generated (call A, call B, preemption point k), systematic sweep of every k for sampled pairs, cold-cache runs in forked pristine processes, real-thread supplement",
   text="Call A is suspended just before its k-th bytecode line inside a5, call B runs to completion, A resumes; both results must equal the sequential ones bit for bit. Random (A,B,k) over all public functions, warm and cold caches, plus every k for sampled pairs (thorough: exhaustive per pair) and 8 real threads at a 1us switch interval.",
   note="Context bound 2 (one preemption of A); C builtins atomic; a5 keeps no thread-local state.", ref="DESIGN.md §6 C16"),
  "C17": dict(
-  technique="stateful property-based testing: Hypothesis rule-based state machine over all public functions with data-dependent bundles, differential against a fresh fork of a pristine process for every call, argument and returned-list mutation checks",
+  technique="very long histories (70k-600k calls) around probe calls, related out-of-order requests; stateful property-based testing: Hypothesis rule-based state machine over all public functions with data-dependent bundles, differential against a fresh fork of a pristine process for every call, argument and returned-list mutation checks",
   text="Each machine owns a subject process with a growing call history; after every call the result is compared bit for bit with the same call in a fresh pristine process; arguments must be unchanged and scribbling over returned lists must not affect later calls.",
   note="A fork of a process that imported a5 and never called it stands for a fresh interpreter.", ref="DESIGN.md §6 C17"),
  "C18": dict(
